@@ -193,9 +193,25 @@ def gen_case(rng, stream: str) -> dict:
             q = rng.choice(nested)
             t2.setdefault(q, rng.choice(cached_pool))
         case["cache"] = sorted(set(case["cache"]) | set(t2.values()))
-        ev = rng.choice(["rm_subdirs", "rm_subdirs", "rm_all", "rm_file:" + rng.choice(sorted(target))])
-        case["call2"] = {"drop": [], "target": t2, "force": True, "prompt": "none", "relink": rng.random() < 0.4,
-                         "fresh_odb": rng.random() < 0.5, "user": ev}
+        mode = rng.choice(["user", "user", "fetched", "reconfigure"])
+        if mode == "user":
+            ev = rng.choice(["rm_subdirs", "rm_subdirs", "rm_all", "rm_file:" + rng.choice(sorted(target))])
+            case["call2"] = {"drop": [], "target": t2, "force": True, "prompt": "none", "relink": rng.random() < 0.4,
+                             "fresh_odb": rng.random() < 0.5, "user": ev}
+        elif mode == "fetched":
+            # a checkout while some target objects are not cached yet; they are fetched; forced checkout; and the
+            # NEXT (plain) checkout must have nothing to do
+            vals = sorted(set(target.values()))
+            case["types"] = [rng.choice(KINDS)]
+            case["prelude"] = {"missing": rng.sample(vals, rng.randint(1, len(vals))), "same_odb": rng.random() < 0.5,
+                               "relink": rng.random() < 0.3}
+        else:
+            # the cache is reconfigured to another link type between two checkouts (another odb object on the same
+            # cache path); the relinking checkout must give every file the new type
+            t1, t2k = rng.sample(list(KINDS), 2)
+            case["types"] = [t2k]
+            case["relink"] = True
+            case["prelude"] = {"types": [t1], "relink": rng.random() < 0.3}
     return normalise(case)
 
 
@@ -567,6 +583,27 @@ def run_case(ctx, case):
         cfg["state"] = state_obj
     odb = impl.make_odb(case["cls"], cache, **cfg)
 
+    # prelude: an EARLIER checkout in this process on the same cache and workspace directories, possibly while
+    # some target objects are not yet in the cache (they are fetched afterwards) and/or under another configured
+    # link type (another odb object on the same cache path).  Its result is simply the prior state of call 1.
+    pre = case.get("prelude")
+    if pre:
+        gone = []
+        for cid in pre.get("missing", []):
+            op = obj_path(cache, md5hex(contents[cid]))
+            if os.path.lexists(op):
+                os.chmod(op, 0o644)
+                os.unlink(op)
+                gone.append(cid)
+        pcfg = dict(cfg, type=list(pre.get("types") or case["types"]))
+        podb = odb if (pre.get("same_odb") and pcfg["type"] == cfg["type"]) else impl.make_odb(case["cls"], cache, **pcfg)
+        pcase = dict(case, force=True, prompt="none")
+        call_checkout(pcase, ws, cache, tmp, contents, bool(pre.get("relink")), state_obj, podb)
+        pclock = Clock()
+        pclock.t = 1_200_000_000
+        for cid in gone:                                   # fetched into the cache
+            pclock.stamp(impl.plant(cache, md5hex(contents[cid]), contents[cid]))
+
     res = {"items": [], "c05": [], "c10": [], "nontrivial": False, "tags": []}
     ws0, c0 = snap_ws(ws), snap_cache(cache)
     enc = Enc(cache, c0, ws0)
@@ -741,7 +778,9 @@ def run_case(ctx, case):
         # nothing is deleted or relinked and the saved record covers the target's keys only
         res["c10"] = [((sig if sig.startswith("C10:cache-bytes-changed") else "C10:does-not-converge:old-tree-build-failed"), what)
                       for sig, what in res["c10"]]
-    res["tags"] = [f"out1:{out1[0]}", f"out2:{out2[0]}", f"types:{'+'.join(case['types'])}", f"cls:{case['cls']}",
+    if pre:
+        res["tags"].append("prelude:" + ("fetched" if pre.get("missing") else "reconfigured"))
+    res["tags"] = res["tags"] + [f"out1:{out1[0]}", f"out2:{out2[0]}", f"types:{'+'.join(case['types'])}", f"cls:{case['cls']}",
                    f"relink:{case['relink']}", f"prompt:{case['prompt'] if isinstance(case['prompt'], str) else 'some'}",
                    f"state:{case['state']}", f"stream:{case.get('stream')}"]
     if case["prior"]:
